@@ -18,6 +18,18 @@ def run(tier, seed):
     mc, sim = plans(tier)
     ck = nc.run_property("C18", tier, seed, "Inv18", PROFILE, mc, sim, 1500 if tier == "thorough" else 240, ASSUME, enum_plan=enum_plans(tier))
     from .. import schedscen, nodetrace as nt
+    # ---- the free grain: after an atomic prefix (a ready connection, stop() called) every interleaving of the threads;
+    #      nothing the node accepted for a connection may be dropped by a clean close (pinned F18c must violate)
+    th = tier == "thorough"
+    cer = nt.M("CE", True, 1, 1, oh="p1.r1", auth=[4])
+    prefix = [{"a": "connect"}, {"a": "feed", "c": 1, "ms": [cer]}, {"a": "stop", "force": False, "wait": 8}]
+    nc.free_phase(ck, "C18", [
+        dict(cfg="A", depth=9 if th else 7, maxtime=2, alpha=["dwrdpa", "dwr", "dpa"], faults=False, maxconn=1, prefix=prefix,
+             invs=["NoOutputLost", "TablesConsistent"], guard=dict(pinned=["F18c"], invs=["NoOutputLost"]),
+             sim=300 if th else 60, sim_depth=22, sim_alpha=["dwrdpa", "dwr", "dpa", "req1"], sim_maxconn=2, sim_maxtime=14),
+        dict(cfg="A", depth=10 if th else 8, maxtime=4, alpha=["cerok", "stop", "stopf"], faults=True, maxconn=1,
+             invs=["NoOutputLost", "TablesConsistent"], sim=300 if th else 60, sim_depth=24, sim_alpha=["cerok", "dpa", "dwr", "stop", "stopf"], sim_maxconn=2, sim_maxtime=14)],
+        seed, monitors=())
     total = 0
     for name, P, quick_runs, thorough_runs in SCENARIOS:
         bound = P + 1 if tier == "thorough" else P
